@@ -28,9 +28,13 @@ def scalar_values(tier='quick'):
     out += [('date', datetime.date(2020, 2, 29)), ('date', datetime.date(1000, 1, 1)), ('date', datetime.date(9999, 12, 31)),
             ('time', datetime.time(0, 0, 0)), ('time', datetime.time(23, 59, 59, 999999)), ('time', datetime.time(1, 2, 3, 500000)),
             # microsecond values that do not survive binary floating point (0.000029 * 1e6 < 29)
-            ('time', datetime.time(12, 34, 56, 29)), ('time', datetime.time(0, 0, 0, 1)), ('time', datetime.time(7, 8, 9, 57)), ('time', datetime.time(1, 1, 1, 123457))]
+            ('time', datetime.time(12, 34, 56, 29)), ('time', datetime.time(0, 0, 0, 1)), ('time', datetime.time(7, 8, 9, 57)), ('time', datetime.time(1, 1, 1, 123457)),
+            ('time', datetime.time(7, 51, 43, 1009)), ('time', datetime.time(0, 0, 59, 249)), ('time', datetime.time(23, 0, 0, 524287)), ('time', datetime.time(9, 9, 9, 493)),
+            # years below 1000: four digits with leading zeros (strftime('%Y') does not pad them on every platform)
+            ('date', datetime.date(987, 6, 5)), ('date', datetime.date(1, 1, 1))]
     for zn, args in (('UTC', (2020, 1, 2, 3, 4, 5)), ('Europe/Paris', (2020, 7, 1, 12, 0, 0, 250000)), ('America/New_York', (2021, 11, 7, 1, 30, 0)),
-                     ('Australia/Adelaide', (2020, 1, 15, 12, 0, 0)), ('Asia/Kolkata', (1999, 12, 31, 23, 59, 59))):
+                     ('Australia/Adelaide', (2020, 1, 15, 12, 0, 0)), ('Asia/Kolkata', (1999, 12, 31, 23, 59, 59)),
+                     ('Australia/Sydney', (2017, 4, 2, 2, 30, 0, 249)), ('UTC', (2001, 2, 3, 4, 5, 43, 1009)), ('Europe/London', (987, 6, 5, 4, 3, 2))):
         out.append(('datetime', pytz.timezone(zn).localize(datetime.datetime(*args))))
     # the repeated hour at the end of DST, on its first pass (still on the DST offset)
     out.append(('datetime', pytz.timezone('America/New_York').localize(datetime.datetime(2021, 11, 7, 1, 30, 0), is_dst=True)))
@@ -88,6 +92,9 @@ def grids(tier, seed):
                 g.append({c: rnd.choice(vals)[1] for c in cols if rnd.random() < 0.8})
             yield ('random/%s' % ver, g)
         yield ('norows/%s' % ver, grid_of([], ver))
+        # version-dependent spellings (Remove) in every position of the document
+        from hszinc import REMOVE
+        yield ('remove-everywhere/%s' % ver, grid_of([REMOVE, 'x'], ver, meta={'gone': REMOVE, 'kept': 'y'}, colmeta={'old': REMOVE}))
         # row dicts whose key order is not the column order; columns re-ordered after the rows went in; rows with a tag that is no column
         g = grid_of(['n', 10.0, True], ver)
         cols = list(g.column.keys())
